@@ -404,7 +404,9 @@ theorem C08_request_keeps_secure_entries (fuel : Node → Sid → Bytes → Node
     exact absurd hk (by decide)
   case replicateRequest str op =>
     simp only [Node.processObj]
-    exact hfuel str
+    split
+    · exact keeps_refl n hnames
+    · exact hfuel str
   case resolve op dbName key value version =>
     simp only [Node.processObj, ha, Bool.false_eq_true, if_false, Bool.false_and]
     apply withAccess_keeps _ _ _ hnames; intro db hg
